@@ -25,6 +25,7 @@ func init() {
 				ts = append(ts, Task{Pkg: "oned", Func: "VerifC10UPCEReaderChecksum", Args: ints(last), Fresh: true, Backends: mod, Timeout: 120, Note: "last UPC-E digit (selects the expansion rule); other 7 digits free"})
 			}
 			ts = append(ts, Task{Pkg: "oned", Func: "VerifC10ParityTables", Note: "6-bit parity pattern free"})
+			ts = append(ts, Task{Pkg: "oned", Func: "VerifC10Ext5", Fresh: true, Backends: mod, Timeout: 120, Note: "EAN-5 add-on: five free digits, free 5-bit parity pattern"})
 			seeds := []int64{seed, seed + 1}
 			if tier == "thorough" {
 				seeds = []int64{seed, seed + 1, seed + 2, seed + 3, seed + 4, seed + 5}
@@ -46,11 +47,12 @@ func init() {
 				"upce":          "expand(suppress(n)) for all suppressible 11-digit numbers per rule; UPC-E reader checksum on the expansion for all 8-digit numbers",
 				"parity":        "all 64 parity patterns (EAN-13 first digit, UPC-E number system + check digit) against tables typed from the GS1 specification",
 				"writers":       "EAN-13, EAN-8, UPC-E: one free digit at each position plus free supplied check digit; remaining digits from seeds",
-				"not_yet_built": "Code 128 mod-103, Code 93 C/K, EAN-2/EAN-5 add-on parity",
+				"addon":         "EAN-5 check value for all 100000 add-ons at once and its parity table",
+				"not_yet_built": "Code 128 mod-103, Code 93 C/K, EAN-2 add-on parity",
 			}
 		},
 		Exhaustive: func(tier string) bool { return false },
-		Outside:    []string{"Code 128 / Code 93 checksum substitutions and EAN add-on parity (no harness yet)", "reading a substituted symbol through the image path (C03)"},
+		Outside:    []string{"Code 128 / Code 93 checksum substitutions and EAN-2 add-on parity (no harness yet)", "reading a substituted symbol through the image path (C03)"},
 		Stubs:      []string{"mod-10 obligations decided by cvc5 --solve-bv-as-int=sum (z3 as second opinion in the portfolio)"},
 		Assumptions: commonAssumptions,
 	}
